@@ -304,14 +304,14 @@ static void do_ops(char* ops, int in_cb) {
       print_statlog();
       break;
     case 'A': if (!in_cb && sscanf(tok + 1, "%" SCNu64, &a) == 1) vclock_ms += a; break;
-    case 'R': if (!in_cb) uv_run(&loop, UV_RUN_NOWAIT); break;
+    case 'R': if (!in_cb) { printf("g "); uv_run(&loop, UV_RUN_NOWAIT); } break;
     case 'Z':
       if (in_cb) break;
       {
         int r, n = 0; long base_other;
         oracle_all();
         uv_sem_post(&cur_blk->sem); cur_blk = NULL;
-        do { pool_sync(); print_statlog(); r = uv_run(&loop, UV_RUN_NOWAIT); } while (r != 0 && ++n < 64);
+        do { pool_sync(); print_statlog(); printf("g "); r = uv_run(&loop, UV_RUN_NOWAIT); } while (r != 0 && ++n < 64);
         r = uv_loop_close(&loop);
         base_other = live_total - nctxptr;
         printf("z%d,%d,%ld ", r, nctxptr, r == 0 ? base_other : 0);
